@@ -116,7 +116,8 @@ func ruleChainRefAbsolute(c *Ctx) {
 		good, targetOK := false, false
 		var loopSwitch *ast.CallExpr
 		if se, ok := unparen(rcall.Fun).(*ast.SelectorExpr); ok {
-			if lid, ok := unparen(se.X).(*ast.Ident); ok && c.objOf(lid) != c.recvObj(fd) {
+			// (the loop-carried loader may be the receiver variable itself, re-pointed at every hop)
+			if lid, ok := unparen(se.X).(*ast.Ident); ok {
 				lv := c.objOf(lid)
 				ast.Inspect(followLoop.Body, func(m ast.Node) bool {
 					as, ok := m.(*ast.AssignStmt)
@@ -154,6 +155,34 @@ func ruleChainRefAbsolute(c *Ctx) {
 			c.ob(rule, fn+":resolver-switch-target", rcall.Pos(), targetOK,
 				"the resolver for the next hop is chosen from the holder's own $ref, which the resolution has just overwritten with the NEXT reference of the chain, instead of the normalised reference of the hop that was followed")
 		}
+		// the base carried to the next hop is the document of the reference just followed
+		ast.Inspect(followLoop.Body, func(m ast.Node) bool {
+			as, ok := m.(*ast.AssignStmt)
+			if !ok || len(as.Lhs) != len(as.Rhs) {
+				return true
+			}
+			for i, l := range as.Lhs {
+				id, ok := unparen(l).(*ast.Ident)
+				if !ok || c.objOf(id) != baseParam {
+					continue
+				}
+				fromRef := false
+				rhs := unparen(as.Rhs[i])
+				if rid, isId := rhs.(*ast.Ident); isId {
+					if ds := c.localDefs(fd)[c.objOf(rid)]; len(ds) == 1 && ds[0] != nil {
+						rhs = unparen(ds[0])
+					}
+				}
+				if call, isCall := rhs.(*ast.CallExpr); isCall {
+					if se, isSel := unparen(call.Fun).(*ast.SelectorExpr); isSel && len(call.Args) == 0 && c.isNormalisedRef(fd, se.X, nil, 0) {
+						fromRef = true
+					}
+				}
+				c.ob(rule, fn+":next-base", as.Pos(), fromRef,
+					"the base path carried to the next hop of the chain is "+exprString(as.Rhs[i])+", not the document of the normalised reference that was just followed: the next $ref is resolved against an unrelated location")
+			}
+			return true
+		})
 		if good && targetOK && loopSwitch != nil {
 			baseOK, why := c.switchBaseOK(fd, loopSwitch)
 			c.ob(rule, fn+":resolver-switch-base", loopSwitch.Pos(), baseOK, why)
